@@ -53,6 +53,12 @@ def call_cases(callees, max_ar, rng=None, triple_sample=None):
             tuples = itertools.product(P.POOL_NAMES, repeat=k)
             if k == 3 and triple_sample is not None:
                 tuples = [tuple(rng.choice(P.POOL_NAMES) for _ in range(3)) for _ in range(triple_sample)]
+                # a sample of triples rarely meets the one combination a position-taking function depends on: every
+                # sequence-like first argument with every int of the pool in second or third place, the remaining place
+                # running over the whole pool
+                seqs = [n for n in ("list-ints", "str-abc", "list-empty", "str-empty", "set-ints", "map-str") if n in P.POOL_NAMES]
+                ints = [n for n in P.POOL_NAMES if n.startswith("int")]
+                tuples += [(q, i, x) for q in seqs for i in ints for x in P.POOL_NAMES] + [(q, x, i) for q in seqs for i in ints for x in P.POOL_NAMES if not x.startswith("int")]
             for names in tuples:
                 pre = "; ".join("def %s = %s" % (VARS[i], P.POOL_SRC[n]) for i, n in enumerate(names))
                 call = "%s(%s)" % (expr, ", ".join(VARS[:k]))
